@@ -1198,14 +1198,16 @@ def run(ctx: common.Ctx):
       if rng.random() < 0.25:
         ln = int(rng.choice([4, 6]))
         if ln != layers:
-          addl['ens'] = np.arange(ln, dtype=float)
+          # the NAME varies between calls with equal lengths (state carried between calls, seeded C19-6)
+          addl[['ens', 'soil_level', 'member'][int(rng.integers(3))]] = np.arange(ln, dtype=float)
       pre = (() if samples is None else (len(samples),)) + (() if times is None else (len(times),))
       pnames_d = (() if samples is None else ('sample',)) + (() if times is None else ('time',))
       m, n = grid.modal_shape, grid.nodal_shape
       kinds = {'modal3d': (layers,) + m, 'nodal3d': (layers,) + n, 'surf_modal': (1,) + m, 'surf_nodal': (1,) + n,
                'nodal2d': n, 'modal2d': m, 'scalar': (), 'unknown': (layers + 7,) + n}
-      if 'ens' in addl:
-        kinds['ens_nodal'] = (len(addl['ens']),) + n
+      addl_name = next(iter(addl), None)
+      if addl_name is not None:
+        kinds['ens_nodal'] = (len(addl[addl_name]),) + n
       for kind, shp in kinds.items():
         full = pre + shp
         data = {'v': arr(full) if full else np.float64(2.5)}
@@ -1223,6 +1225,8 @@ def run(ctx: common.Ctx):
           single_layer_hit.append(inp)
         # the property itself: the right dimension names for every kind of variable
         want = want_dims(kind, layers, pnames_d)
+        if kind == 'ens_nodal':
+          want = pnames_d + (addl_name,) + NODAL_NAMES
         if want is not None and not (layers == 1 and kind in ('nodal3d', 'surf_nodal')):
           got = tuple(ds['v'].dims) if st == 'ok' else None
           if ambiguous:
@@ -1233,6 +1237,19 @@ def run(ctx: common.Ctx):
           else:
             ctx.expect(got == want, 'xarray-dims', f'data_to_xarray labels {kind} data of shape {list(full)} '
                        f'{got} ({st}), expected {want}', inp)
+  # two datasets written in one process with equally long, differently named additional coordinates (every run)
+  with ctx.impl('dims-sequence-exception', dict(seed=ctx.seed)):
+    gseq = small_grid(3, 4, impls[0])
+    cseq = cs.CoordinateSystem(gseq, sc.SigmaCoordinates.equidistant(2))
+    for order in (('ens', 'soil_level'), ('soil_level', 'ens'), ('member', 'ens')):
+      for nm in order:
+        dat = {'v': arr((2, 4) + tuple(gseq.nodal_shape))}
+        inp = dict(sequence=list(order), this=nm, length=4, nodal=list(gseq.nodal_shape))
+        ds = xu.data_to_xarray(dat, coords=cseq, times=np.arange(2), additional_coords={nm: np.arange(4.0)})
+        ctx.case(('dims-seq', repr(inp)), nontrivial=True)
+        ctx.expect(tuple(ds['v'].dims) == ('time', nm) + NODAL_NAMES and nm in ds.coords, 'xarray-dims-sequence',
+                   f'after writing datasets with additional coordinates {list(order)} in this order, the variable along '
+                   f'{nm!r} is labelled {tuple(ds["v"].dims)} (coords {sorted(map(str, ds.coords))})', inp)
   if single_layer_hit:
     ctx.fail('single-layer-nodal-3d',
              'data_to_xarray raises ValueError for 3-d nodal data (1, lon, lat) of a single-layer coordinate system: '
